@@ -142,6 +142,9 @@ func c01EvSaveByBlock(s *EventStore, h uint32, txs []common.Uint256) {}
 func c01EvSaveCurrent(s *EventStore, height uint32, hash common.Uint256) {
 	c01.evtPend = height
 }
+func c01EvGetCurrent(s *EventStore) (common.Uint256, uint32, error) {
+	return c01Hash(c01.evtDur), c01.evtDur, nil
+}
 func c01EvCommit(s *EventStore) error {
 	if !c01Commit() {
 		return errC01Crash
